@@ -187,7 +187,10 @@ class ABI:
 
         for read in constraints.reads_registers:
             reg = self.get_register(read)
-            available_scratch_registers.remove(reg)
+            # The register may already be gone because it is clobbered too,
+            # or may never have been a scratch register candidate.
+            if reg in available_scratch_registers:
+                available_scratch_registers.remove(reg)
 
         if constraints.scratch_registers > len(available_scratch_registers):
             raise ValueError("unable to allocate enough scratch registers")
